@@ -171,6 +171,29 @@ def r5(ctx, rep):
                     if n.get("k") == "call" and show(n["f"]).endswith("ExprKind::SString") and "ident.name" in show(n, maxdepth=8):
                         found = n
     if found is not None:
+        # the pass-through is a recorded finding for identifiers WITHOUT a target; it must not widen to identifiers that did resolve
+        # (a resolved target missing from the lowerer's mapping is a name of another scope: it has to stay an error)
+        from alpha import Inliner
+        inl = Inliner(f)
+        how = None
+
+        def holds(node):
+            return any(x is found for x in walk(node))
+        for n in walk(f["body"]):
+            if n.get("k") == "if" and n.get("e") is not None and holds(n["e"]) and not (n["e"].get("k") == "if" and holds(n["e"])
+                                                                                         and n["e"].get("e") is not None and holds(n["e"]["e"])):
+                if n["e"].get("k") == "if":
+                    continue
+                c = n["c"]
+                how = ("if", inl.show(c["e"], strip=True) if c.get("k") == "let" else inl.show(c, strip=True), pat_head(c["pat"]) if c.get("k") == "let" else None)
+            if n.get("k") == "match":
+                for arm in n["arms"]:
+                    if holds(arm["body"]) and not any(m2 is not n and m2.get("k") in ("match", "if") and holds(m2) for m2 in walk(arm["body"])):
+                        how = ("match", inl.show(n["e"], strip=True), pat_head(arm["pat"]))
+        ok = how is not None and how[1] == "expr.target_id" and ((how[0] == "if" and how[2] == "Some") or (how[0] == "match" and how[2] in ("None", "_")))
+        rep.check(ok, "pass-through-only-without-target", f"the bare-name fallback of lower_expr is the alternative of `{how}`; it may be reached only when `expr.target_id` is None. With a further "
+                  "condition on the target (e.g. `node_mapping.contains_key`) a name that resolved to something outside this query — a tuple field alias leaked by a function argument — is emitted as SQL "
+                  "text instead of being rejected", file=f["file"], line=found["l"], fn=f["path"])
         rep.bad("ident-pass-through", "lower_expr's fallback turns an identifier without target_id into an s-string of its bare name (\"let's hope that the database engine can resolve it\"): "
                 "`derive x = std.math` / `derive x = default_db.t2` compile and pass `math` / `t2` to SQL instead of being rejected", file=f["file"], line=found["l"], fn=f["path"])
     else:
@@ -326,6 +349,12 @@ def r8(ctx, rep):
                 n_short += 1
                 c = show(n["c"], maxdepth=8)
                 missing = [p for p in params if not re.search(r"\b" + re.escape(p) + r"\b", c)]
+                # ... and positively: `!subset.kind.is_function()` admits every other kind, and is_super_type_of is applied recursively to return and parameter types
+                conj = [x.strip() for x in re.split(r"&&", c)]
+                negs = [x for x in conj if x.startswith("!")]
+                rep.check(not negs and "||" not in c, f"types:shortcut-positive:{name}:{n_short}", f"`if {c} {{ return true }}` in {name} accepts by a negated or alternative kind test ({negs or c}): the sub-type "
+                          "relation is used recursively (function return and parameter types), so an open-ended accept lets a function returning a scalar pass where a transform is required",
+                          file=g["file"], line=n["l"], fn=g["path"])
                 rep.check(not missing, f"types:shortcut:{name}:{n_short}", f"`if {c} {{ return true }}` in {name} accepts without looking at {missing}: any value is then accepted where that type is expected "
                           "(a relation where a scalar is required)", file=g["file"], line=n["l"], fn=g["path"])
     rep.check(n_short >= 1, "types:shortcuts", f"expected the relation shortcut of is_super_type_of, found {n_short} accepting shortcuts")
